@@ -162,7 +162,7 @@ fn render(w: &[usize], invalid: bool) -> BStr {
 /// long words (100-300 symbols): ratios that differ only far behind the decimal point; a few rare
 /// symbols that occur once on both sides and move
 fn long_strat() -> BoxedStrategy<Case> {
-    (vec(prop_oneof![24 => 0usize..3, 1 => 3usize..VALID_SYMS], 100..=300), vec(vec((0u8..4, any::<u16>(), 0usize..4), 1..=6), 2..=8), prop_oneof![Just(1usize), Just(2), Just(3), Just(usize::MAX)], 0usize..8, any::<bool>())
+    (prop_oneof![2 => vec(prop_oneof![24 => 0usize..3, 1 => 3usize..VALID_SYMS], 100..=300), 1 => vec((0usize..4, prop_oneof![3 => 1usize..12, 2 => 60usize..140]), 2..=6).prop_map(|runs| runs.into_iter().flat_map(|(s, l)| std::iter::repeat(s).take(l)).take(330).collect::<Vec<usize>>())], vec(vec((0u8..5, any::<u16>(), 0usize..4), 1..=6), 2..=8), prop_oneof![Just(1usize), Just(2), Just(3), Just(usize::MAX)], 0usize..8, any::<bool>())
         .prop_map(|(w, cand_edits, n, pick, bytes)| {
             let cands: Vec<BStr> = cand_edits
                 .into_iter()
@@ -175,6 +175,10 @@ fn long_strat() -> BoxedStrategy<Case> {
                                 v.remove(crate::gen::pos(at, len - 1));
                             }
                             1 => v.insert(crate::gen::pos(at, len), sym),
+                            // the candidate becomes a short string (0-3 symbols) that may share a symbol with the word
+                            4 => {
+                                v = (0..(at as usize % 4)).map(|i| (sym + i * (1 + at as usize % 3)) % 4).collect();
+                            }
                             // a symbol (often one that is rare in the word) moves to the front or the back
                             3 if len > 0 => {
                                 let p = v.iter().position(|x| *x >= 3).filter(|_| at % 4 != 0).unwrap_or(crate::gen::pos(at, len - 1));
@@ -261,9 +265,10 @@ fn short_strat() -> BoxedStrategy<Case> {
         1 => Just((vec![], vec![])),
     ];
     (word(8), vec(cand, 0..=9), prop_oneof![20 => 0usize..6, 1 => Just(usize::MAX), 1 => Just(1usize << 60)], prop_oneof![
-        2 => prop_oneof![Just(-1i32), Just(-2), Just(-3), Just(-4)],
-        4 => (0i32..9),
-        2 => (100i32..201),
+        4 => prop_oneof![Just(-1i32), Just(-2), Just(-3), Just(-4)],
+        1 => prop_oneof![Just(-5i32), Just(-6), Just(-7)],
+        8 => (0i32..9),
+        4 => (100i32..201),
     ], any::<bool>(), any::<bool>(), any::<bool>())
         .prop_map(|(w, cs, n, cut, bytes, dup, inv)| {
             let invalid = bytes && inv;
@@ -302,6 +307,10 @@ fn short_strat() -> BoxedStrategy<Case> {
                 -2 => 0.5,
                 -3 => 0.6,
                 -4 => 1.0,
+                // tiny positive cutoffs: a candidate sharing nothing with the word (ratio 0) stays out
+                -5 => 1e-10,
+                -6 => f32::MIN_POSITIVE,
+                -7 => 1e-6,
                 i if i < 100 => {
                     // the exact ratio of a candidate, so that ">= cutoff" is hit exactly
                     if cands.is_empty() { 0.6 } else { ref_ratio(&word.0, &cands[i as usize % cands.len()].0) }
@@ -317,7 +326,7 @@ impl Prop for C18 {
     type Case = Case;
     const ID: &'static str = "C18";
     fn rule() -> String {
-        "cases = (word, 0-10 candidates, n in 0..6 | usize::MAX | 2^60, cutoff, str | [u8]); 1 case in ~120 has 33-120 candidates over a two/three-letter alphabet (large groups of equal ratios, n cutting through a group); 1 case in ~60 uses words of 100-300 symbols with candidates 1-6 edits away (ratios that differ by less than 1e-4); words over a 9-symbol alphabet incl. 2-, 3- and 4-byte characters and a combining sequence, for [u8] additionally 6 non-UTF-8 symbols (latin-1 byte, 0xFF, lone continuation byte, truncated 4-byte sequence, an encoded surrogate, an overlong form; about 1 case in 20 has a word of 11-99 symbols with candidates at every distance and mid-range cutoffs; a character of a byte string = one scalar value or one maximal invalid subpart); candidates independent or 1-2 edits away from the word, duplicates and empty strings included; cutoff in {0, 0.5, 0.6, 1.0} | the exact ratio of one candidate (so '>= cutoff' is hit exactly) | hundredths. Valid-UTF-8 cases are also run with the word and candidates being WINDOWS OF ONE BUFFER, and ASCII cases over a caller-defined case-insensitive DiffableStr (candidates in upper case). Oracle: brute force — ratio = 2*LCS(chars)/(n+m) by an independent DP (1.0 for two empty strings), keep ratio >= cutoff, sort by ratio descending then candidate ascending (bytewise), take n, compare as value lists. Non-trivial = result non-empty and shorter than the candidate list; distinct = distinct serialized case.".into()
+        "cases = (word, 0-10 candidates, n in 0..6 | usize::MAX | 2^60, cutoff, str | [u8]); 1 case in ~120 has 33-120 candidates over a two/three-letter alphabet (large groups of equal ratios, n cutting through a group); 1 case in ~60 uses words of 100-300 symbols (a third of them built from 2-6 runs of one symbol, runs of 60-140) with candidates 1-6 edits away (ratios that differ by less than 1e-4), moved rare symbols, or short strings; words over a 9-symbol alphabet incl. 2-, 3- and 4-byte characters and a combining sequence, for [u8] additionally 6 non-UTF-8 symbols (latin-1 byte, 0xFF, lone continuation byte, truncated 4-byte sequence, an encoded surrogate, an overlong form; about 1 case in 20 has a word of 11-99 symbols with candidates at every distance and mid-range cutoffs; a character of a byte string = one scalar value or one maximal invalid subpart); candidates independent or 1-2 edits away from the word, duplicates and empty strings included; cutoff in {0, 0.5, 0.6, 1.0} | tiny positive values (1e-10, f32::MIN_POSITIVE, 1e-6) | the exact ratio of one candidate (so '>= cutoff' is hit exactly) | hundredths. Valid-UTF-8 cases are also run with the word and candidates being WINDOWS OF ONE BUFFER, and ASCII cases over a caller-defined case-insensitive DiffableStr (candidates in upper case). Oracle: brute force — ratio = 2*LCS(chars)/(n+m) by an independent DP (1.0 for two empty strings), keep ratio >= cutoff, sort by ratio descending then candidate ascending (bytewise), take n, compare as value lists. Non-trivial = result non-empty and shorter than the candidate list; distinct = distinct serialized case.".into()
     }
     fn assumptions() -> Vec<String> {
         vec!["ratios are computed in f32 with the same expression as the documented formula; for words up to a few hundred symbols distinct f32 ratios stay distinct under the library's scaling to u32 (exact power-of-two scaling for ratios >= 2^-8)".into()]
